@@ -6,6 +6,7 @@ from ..core import Result
 PID = "C14"
 LEVEL = "exploration"
 RULE = (
+    "One spec in three has lived before (warm start): another model edited in place into this one or swapped into the old project object, or the model's own run cut short by max_time and then continued with one of the unequal initialize-flag combinations (state carried over and logs restarted, or state reset and logs appended), or a first run that does not initialize the logs. "
     'Hypothesis-generated products and workflows (0-5 components, flat and nested, arbitrary task-to-component assignment, components without tasks, tasks listed by a component without a back link or by two components, mixed default progress) simulated once. Oracle per step on the live updated/allocated/recorded snapshots and on the logs: FINISHED <=> all tasks FINISHED, any task WORKING => WORKING, not NONE while a task is READY/WORKING, never back to NONE, never leaves FINISHED; the log relation is re-checked on a run paused in the middle and resumed, in memory and through a JSON round trip. Non-trivial = a component whose tasks were in different states at some step; distinct by spec hash.'
 )
 ASSUMPTIONS = [
@@ -16,11 +17,11 @@ TECHNIQUE = 'property-based testing (Hypothesis): generated products, component/
 LEVEL_TEXT = 'Generated-input search with a relational invariant between component and task states at every step; not a proof.'
 LEVEL_NOTE = 'Trusts the step observer and the builder.'
 
-CFG = gen.Cfg(warm=4, facilities=True, nested="assembly", max_time=[40, 80])
+CFG = gen.Cfg(warm_modes=["morph", "graft", "carry", "append", "nolog"], warm=4, facilities=True, nested="assembly", max_time=[40, 80])
 # arbitrary forests with arbitrary task assignment: only without workplaces (placement of nested
 # products outside the assembly form crashes, known finding D-PLC4 of C13)
-CFG_FREE = gen.Cfg(warm=3, facilities=True, nested="free", max_wps=0, max_time=[40, 80], multi_parent=2)
-CFG_FLAT = gen.Cfg(warm=2, facilities=True, max_time=[40, 80])
+CFG_FREE = gen.Cfg(warm_modes=["morph", "graft", "carry", "append", "nolog"], warm=3, facilities=True, nested="free", max_wps=0, max_time=[40, 80], multi_parent=2)
+CFG_FLAT = gen.Cfg(warm_modes=["morph", "graft", "carry", "append", "nolog"], warm=2, facilities=True, max_time=[40, 80])
 
 
 def _with_one_sided_links(cfg):
